@@ -24,7 +24,7 @@ def _alarm(signum, frame):
 
 def _run_one(arg):
     pid, desc = arg
-    mod = importlib.import_module(f'vt.runtime.r_{pid}')
+    mod = importlib.import_module('vt.runtime.fsearch' if desc.get('kind') == 'fsearch' else f'vt.runtime.r_{pid}')
     warnings.simplefilter('ignore')
     signal.signal(signal.SIGALRM, _alarm)
     signal.alarm(CASE_TIMEOUT)
@@ -55,13 +55,13 @@ def main():
     ap.add_argument('--jobs', type=int, default=int(os.environ.get('VT_JOBS', '14')))
     a = ap.parse_args()
     t0 = time.time()
-    mod = importlib.import_module(f'vt.runtime.r_{a.pid}')
     if a.replay:
         rep = json.load(open(a.replay))
         r = _run_one((a.pid, rep['case']))
         json.dump(r, sys.stdout, default=str)
         print()
         sys.exit(1 if r['failures'] else (3 if r.get('harness_error') else 0))
+    mod = importlib.import_module(f'vt.runtime.r_{a.pid}')
     descs = list(mod.cases(a.tier, a.seed))
     results = []
     if a.jobs <= 1 or len(descs) <= 1:
